@@ -23,9 +23,12 @@ VARIABLES pred,        \* [0..L -> SUBSET 1..N]
           manRoot,     \* [0..L -> SUBSET 1..N]
           view,        \* [0..L -> Seq(1..N)], view[0] = <<1..N>> always
           rootVer,     \* version of root-level data that feeds computed/temporary features
+          tempRoot,    \* [1..N -> 0 (NaN) or version]: the temporary feature that was
+                       \* assigned through some level (held by the root)
+          partial,     \* TRUE while only some levels are refreshed (after SetTemp)
           last
 
-hvars == <<pred, manRoot, view, rootVer, last>>
+hvars == <<pred, manRoot, view, rootVer, tempRoot, partial, last>>
 
 Levels == 0..L
 All == 1..N
@@ -43,50 +46,71 @@ HInit == /\ pred = [l \in Levels |-> All]
          /\ manRoot = [l \in Levels |-> {}]
          /\ view = [l \in Levels |-> RootView]
          /\ rootVer = 1
+         /\ tempRoot = [i \in All |-> 0]
+         /\ partial = FALSE
          /\ last = [a |-> "init"]
 
 \* change the range filter of level l
 SetPred(l, P) ==
     /\ pred[l] # P
     /\ pred' = [pred EXCEPT ![l] = P]
-    /\ UNCHANGED <<manRoot, view, rootVer>>
+    /\ UNCHANGED <<manRoot, view, rootVer, tempRoot, partial>>
     /\ last' = [a |-> "setpred", l |-> l, P |-> P]
 
 \* manually exclude / re-include the event shown at position i of level l
 Exclude(l, i) ==
     /\ i \in 1..Len(view[l]) /\ view[l][i] \notin manRoot[l]
     /\ manRoot' = [manRoot EXCEPT ![l] = @ \cup {view[l][i]}]
-    /\ UNCHANGED <<pred, view, rootVer>>
+    /\ UNCHANGED <<pred, view, rootVer, tempRoot, partial>>
     /\ last' = [a |-> "exclude", l |-> l, i |-> i, e |-> view[l][i]]
 
 Include(l, i) ==
     /\ i \in 1..Len(view[l]) /\ view[l][i] \in manRoot[l]
     /\ manRoot' = [manRoot EXCEPT ![l] = @ \ {view[l][i]}]
-    /\ UNCHANGED <<pred, view, rootVer>>
+    /\ UNCHANGED <<pred, view, rootVer, tempRoot, partial>>
     /\ last' = [a |-> "include", l |-> l, i |-> i, e |-> view[l][i]]
 
 \* root-level change that alters computed / temporary feature values
 SetRootVer(v) ==
     /\ rootVer # v /\ rootVer' = v
-    /\ UNCHANGED <<pred, manRoot, view>>
+    /\ UNCHANGED <<pred, manRoot, view, tempRoot, partial>>
     /\ last' = [a |-> "rootver", v |-> v]
+
+\* a temporary feature is assigned through level l (version v, one value per
+\* event the level shows): the root holds it, events the level does not show
+\* get NaN, and every level shows the root's values of its own events
+\* (the assignment refreshes level l and its ancestors - not the younger
+\* levels, which keep showing what they showed)
+\* Not explored while an earlier assignment has left the hierarchy partially
+\* refreshed: the arrays of the level then do not fit its parent's and the
+\* call may raise.
+SetTemp(l, v) ==
+    /\ ~partial /\ partial' = TRUE
+    /\ tempRoot' = [i \in All |-> IF i \in Range(view[l]) THEN v ELSE 0]
+    /\ tempRoot' # tempRoot
+    /\ view' = [k \in Levels |-> IF k <= l THEN FreshView(k) ELSE view[k]]
+    /\ UNCHANGED <<pred, manRoot, rootVer>>
+    /\ last' = [a |-> "settemp", l |-> l, v |-> v]
 
 \* youngest.rejuvenate(): every level shows its parent's selection
 Rejuvenate ==
     /\ view' = [l \in Levels |-> FreshView(l)]
-    /\ UNCHANGED <<pred, manRoot, rootVer>>
+    /\ UNCHANGED <<pred, manRoot, rootVer, tempRoot>>
+    /\ partial' = FALSE
     /\ last' = [a |-> "rejuvenate",
                 views |-> [l \in Levels |-> FreshView(l)],
                 \* manual exclusions visible at each level after the refresh
                 manvis |-> [l \in Levels |-> manRoot[l] \cap Range(FreshView(l))],
                 sel |-> Range(Selected(L, FreshView(L))),
-                ver |-> rootVer]
+                ver |-> rootVer,
+                temp |-> [i \in All |-> tempRoot[i]]]
 
 \* edits restricted to given levels / predicates (for focused enumerations)
 EditStepR(PL, ML, PS, VS) ==
     \/ \E l \in PL, P \in PS : SetPred(l, P)
     \/ \E l \in ML, i \in 1..N : Exclude(l, i) \/ Include(l, i)
     \/ \E v \in VS : SetRootVer(v)
+    \/ \E l \in ML, v \in VS : SetTemp(l, v)
 
 EditStep == EditStepR(Levels, Levels, Preds, {1, 2})
 
